@@ -122,6 +122,7 @@ class SObject(object):
         self.attrs = attrs
 
 
+FACT = z3.Function('fact', z3.IntSort(), z3.IntSort())
 _fresh = itertools.count()
 
 
@@ -245,6 +246,7 @@ class Path(object):
     def fork(self):
         p = Path(self.env, self.hyps)
         p.comp = getattr(self, 'comp', False)
+        p.sidefacts = getattr(self, 'sidefacts', None)
         return p
 
 
@@ -505,7 +507,13 @@ class Gen(object):
                 a, b = to_real(a), to_real(b)
                 self.oblige('nonzero-divisor@%d' % n.lineno, path, atom(b != 0), 'safety', n.lineno)
                 if getattr(path, 'comp', False):
-                    return a / b          # inside a comprehension element: no per-element temporaries
+                    # inside a comprehension element: no per-element temporaries; the defining fact of the quotient
+                    # (a valid formula of real arithmetic) is stated next to the element so that the products-abstracted
+                    # pass can use it
+                    side = getattr(path, 'sidefacts', None)
+                    if side is not None:
+                        side.append(atom(z3.Implies(b != 0, (a / b) * b == a)))
+                    return a / b
                 t = fresh('quot', R)
                 path.hyps.append(atom(t * b == a))
                 return t
@@ -739,6 +747,7 @@ class Gen(object):
         k = fresh('ci', I)          # symbolic position in the result
         sub = path.fork()
         sub.comp = True
+        sub.sidefacts = []
         if isinstance(it, ast.Call) and isinstance(it.func, ast.Name) and it.func.id == 'range':
             rng = [self.expr(a, path) for a in it.args]
             lo, hi = (z3.IntVal(0), rng[0]) if len(rng) == 1 else (rng[0], rng[1])
@@ -777,7 +786,7 @@ class Gen(object):
         path.hyps.append(atom(out.ln == ln))
         # forall k in [0, ln): (side facts about fresh temporaries of the element) and out[k] == val
         kv = z3.Int('k?')
-        inner = f_and(list(new_hyps) + body)
+        inner = f_and(list(new_hyps) + list(sub.sidefacts) + body)
         tree = ('implies', atom(z3.And(0 <= k, k < ln)), inner)
         # temporaries created while evaluating the element depend on k: they are existentially bound per k;
         # sound over-approximation: skolem functions are avoided by keeping only those element facts that do not
@@ -948,6 +957,15 @@ class Gen(object):
                 s = fresh('sqrt', R)        # A4: s >= 0, s*s == a
                 path.hyps.append(atom(z3.And(s >= 0, s * s == a)))
                 return s
+            if isinstance(obj, ast.Name) and obj.id == 'math' and meth == 'factorial':
+                a = ev(n.args[0])
+                if not is_int(a):
+                    raise Unsupported('factorial of a non-integer')
+                self.oblige('factorial-domain@%d' % n.lineno, path, atom(a >= 0), 'safety', n.lineno)
+                # A4: math.factorial by its defining equations  0! = 1, n! = n * (n-1)!  (hence n! >= 1), unfolded once
+                path.hyps.append(atom(z3.And(FACT(a) >= 1, FACT(z3.IntVal(0)) == 1, FACT(z3.IntVal(1)) == 1,
+                                             z3.Implies(a >= 1, z3.And(FACT(a) == a * FACT(a - 1), FACT(a - 1) >= 1)))))
+                return FACT(a)
             raise Unsupported('method call %s' % meth)
         raise Unsupported('call')
 
@@ -1240,6 +1258,13 @@ class Gen(object):
                 val = typed
             for t in st.targets:
                 self.assign(t, val, path, st.lineno)
+            if len(st.targets) == 1 and isinstance(st.targets[0], ast.Name) and st.targets[0].id in self.c.get('after', {}):
+                # ghost assertions after an assignment to a named local (keyed by the name, not the line): proved, then assumed
+                nm = st.targets[0].id
+                for j, txt in enumerate(self.c['after'][nm]):
+                    f = self.spec(txt, path.env)
+                    self.oblige('after[%s].hint[%d]@%d' % (nm, j, st.lineno), path, f, 'scaffolding', st.lineno)
+                    path.hyps.append(f)
             return [path]
         if isinstance(st, ast.AugAssign):
             cur = self.expr(st.target, path)
